@@ -92,7 +92,9 @@ def specCheck (model : CpuModel) (r0 : Regs) (mem0 : List (Addr × Byte)) (g : G
   | (.error (.illegal _ _), b) =>
     let v := (if coarse g.kind != "error" then [s!"C11:kind:{g.kind}"] else []) ++
       ((regsDiff 0 g.regs r0).map ("C11:regs:" ++ ·)) ++
-      (if g.trace != b.trace then ["C11:trace"] else [])
+      -- the accesses of a run that ends at an undefined opcode are its opcode fetch and nothing else: anything more is
+      -- an effect of the failed instruction (C11) and an access the totals count although no instruction made it (C03)
+      (if g.trace != b.trace then ["C11:trace", "C03:trace-at-illegal-opcode"] else [])
     (v, "illegal")
   | (.error _, _) => ([], "skip-error")
   | (.ok none, _) => ([], "skip-unspecified")
@@ -200,14 +202,14 @@ def handleRuns (line : String) : String :=
   | [hd, memS, runsS] =>
     match words hd with
     | [_, m, x] =>
-      let parsed : Option (CpuModel × Byte × List (Addr × Byte) × List (Addr × Bool)) := do
+      let parsed : Option (CpuModel × Byte × List (Addr × Byte) × List (Addr × Nat)) := do
         let model ← if m == "0" then some CpuModel.m6502 else if m == "1" then some CpuModel.m65C02 else none
         let x ← parseByte x
         let mem ← (words memS).mapM fun w => match w.splitOn "=" with
           | [a, v] => do some (← parseAddr a, ← parseByte v)
           | _ => none
         let runs ← (words runsS).mapM fun w => match w.splitOn ":" with
-          | [a, r] => do some (← parseAddr a, r == "1")
+          | [a, r] => do some (← parseAddr a, ← r.toNat?)
           | _ => none
         some (model, x, mem, runs)
       match parsed with
@@ -215,14 +217,17 @@ def handleRuns (line : String) : String :=
       | some (model, x, mem, runs) =>
         let bus0 : SBus := { mem := mem.reverse, trace := #[], budget := 4000 }
         let regs0 : Regs := ⟨0, 0xFF, 0, x, 0, 0⟩
-        -- the Impl model
-        let (_, outsI) := runs.foldl (fun (acc : Impl.Machine SBus × List String) (pr : Addr × Bool) =>
-          let (stop, m') := Impl.runExt (Generated.opTable model) Generated.consts model sbus 5000 pr.1 pr.2 acc.1
+        -- the Impl model (mode 2 = `Reset()`: registers and the cycle counter start over)
+        let regsR : Regs := ⟨0, 0xFF, 0, 0, 0, 0⟩
+        let (_, outsI) := runs.foldl (fun (acc : Impl.Machine SBus × List String) (pr : Addr × Nat) =>
+          if pr.2 == 2 then ({ acc.1 with regs := regsR, cycles := 0 }, acc.2 ++ ["reset:0"]) else
+          let (stop, m') := Impl.runExt (Generated.opTable model) Generated.consts model sbus 5000 pr.1 (pr.2 == 1) acc.1
           (m', acc.2 ++ [s!"{kindOf stop}:{m'.cycles}"])) ({ regs := regs0, cycles := 0, mem := bus0 }, [])
         -- the specification
-        let (_, outsS) := runs.foldl (fun (acc : (Regs × SBus × Nat) × List String) (pr : Addr × Bool) =>
+        let (_, outsS) := runs.foldl (fun (acc : (Regs × SBus × Nat) × List String) (pr : Addr × Nat) =>
           let (r, b, c) := acc.1
-          let c0 := if pr.2 then 0 else c
+          if pr.2 == 2 then ((regsR, b, 0), acc.2 ++ ["reset:0"]) else
+          let c0 := if pr.2 == 1 then 0 else c
           match specRun model 5000 { r with pc := pr.1 } b c0 with
           | some (r', b', c') => ((r', b', c'), acc.2 ++ [s!"halt:{c'}"])
           | none => ((r, b, c0), acc.2 ++ ["?"])) ((regs0, bus0, 0), [])
